@@ -12,6 +12,7 @@ package zzsimrt
 import (
 	"reflect"
 	"runtime"
+	"runtime/debug"
 	"sync/atomic"
 	"syscall"
 	"unsafe"
@@ -251,6 +252,7 @@ func InitBaton(n int) {
 	freeIDs = freeIDs[:0]
 	spawnQ = spawnQ[:0]
 	deadlocked = false
+	liveChildren = 0
 	resetChans()
 	baton = true
 }
@@ -267,7 +269,7 @@ func ensurePipe(i int) {
 }
 
 // Spawn is evaluated by the parent at a `go` statement of the library (the
-// instrumenter rewrites `go f(x)` into `go zzsimrt.GoCall(zzsimrt.Spawn(), f, x)`):
+// instrumenter rewrites `go f(x)` into `go zzsimrt.GoCallL(f, x, zzsimrt.Spawn())`):
 // it reserves a client id for the new goroutine and tells the scheduler.
 //
 //go:norace
@@ -289,6 +291,7 @@ func Spawn() int {
 	ensurePipe(id)
 	spawnQ = append(spawnQ, id)
 	childSeen = true
+	liveChildren++
 	return id
 }
 
@@ -322,6 +325,32 @@ func SetDeadlocked(v bool) {
 //go:norace
 func ChildOverrun() bool { v := childOver; childOver = false; return v }
 
+var (
+	liveChildren   int
+	childFaulted   bool
+	childFaultAddr uintptr
+)
+
+//go:norace
+func childEnded() { liveChildren-- }
+
+//go:norace
+func noteChildFault(a uintptr) { childFaulted, childFaultAddr = true, a }
+
+// LiveChildren reports how many goroutines started by the library have not finished.
+//
+//go:norace
+func LiveChildren() int { return liveChildren }
+
+// TakeChildFault reports (once) a memory fault raised inside a goroutine started by the library.
+//
+//go:norace
+func TakeChildFault() (uintptr, bool) {
+	a, ok := childFaultAddr, childFaulted
+	childFaulted = false
+	return a, ok
+}
+
 //go:norace
 func noteChildOverrun() { childOver = true }
 
@@ -329,12 +358,30 @@ func noteChildOverrun() { childOver = true }
 // scheduler grants it a slice, runs the original call (function value and
 // arguments were evaluated by the parent, as the go statement requires) and
 // reports its end.
+// GoCallL is what the instrumenter emits: the function value, its arguments,
+// and the client id (from Spawn) last.
+func GoCallL(fn interface{}, argsAndID ...interface{}) {
+	n := len(argsAndID) - 1
+	GoCall(argsAndID[n].(int), fn, argsAndID[:n]...)
+}
+
 func GoCall(id int, fn interface{}, args ...interface{}) {
 	if id >= 0 {
+		// a write to caller-owned (read-only) memory must not take the
+		// process down from a goroutine of the library either
+		debug.SetPanicOnFault(true)
 		ClientStart(id)
 		BeginOp(childBudget)
 		defer func() {
 			if r := recover(); r != nil {
+				if ae, isFault := r.(interface{ Addr() uintptr }); isFault {
+					if _, isRT := r.(runtime.Error); isRT {
+						noteChildFault(ae.Addr())
+						childEnded()
+						Yield(KTaskDone)
+						return
+					}
+				}
 				be, ok := r.(BudgetExceeded)
 				if !ok {
 					panic(r)
@@ -342,6 +389,7 @@ func GoCall(id int, fn interface{}, args ...interface{}) {
 				trace("child-budget", id, int(be.Limit))
 				noteChildOverrun()
 			}
+			childEnded()
 			Yield(KTaskDone)
 		}()
 	}
